@@ -35,7 +35,7 @@ def wide_phase(chk):
     primary-key index, the secondary index and the scan after every step (TLC -simulate walks)."""
     import widetable
     thorough = chk.tier == "thorough"
-    hists = widetable.walks(chk, 100 if thorough else 24, 20 if thorough else 12)
+    hists = widetable.walks(chk, 60 if thorough else 5, 20 if thorough else 12, cap=1500 if thorough else 150)
     outs = widetable.execute(hists)
     probs, st = widetable.judge(hists, outs)
     sigs = {}
@@ -43,12 +43,16 @@ def wide_phase(chk):
         if kind != "model":
             continue
         sig = "wide:%s:%s" % (d["what"], h[-1]["op"]["k"])
+        if d["what"] == "predicate_over_out_of_line_value":
+            sig = "wide:predicate_over_out_of_line_value"          # a probe of the state, whatever statement came last
         sigs[sig] = sigs.get(sig, 0) + 1
         chk.classify(sig, {"behaviour": widetable.describe(h), "wide_hist": h, "detail": d})
     if st["steps"] and st["abandoned"] > 0.5 * st["steps"]:
         raise vlib.ToolError("more than half of the WideTable steps were abandoned")
     if st["rows_max"] < 150:
         raise vlib.ToolError("WideTable walks never built a table of 150 rows: the phase is vacuous")
+    if not st.get("big_pad_rows_max"):
+        raise vlib.ToolError("WideTable walks never moved a pad out of line (PadGrow): the large-value part is vacuous")
     chk.cov["wide_table"] = dict(st, walks=len(hists), signatures=sigs, sample=widetable.describe(hists[0]))
     chk.mark("wide_table")
 
